@@ -4,6 +4,7 @@
 import OptreeModel.Model.Inspect
 import OptreeModel.Lemmas.EncPaths
 import OptreeModel.Lemmas.UpToSelf
+import OptreeModel.Lemmas.EncAccessors
 
 namespace Optree
 
@@ -246,5 +247,86 @@ def C04_demo : STree :=
 
 example : C04_demo.wf = true ∧ C04_demo.entriesOk = true ∧ C04_demo.entriesNodup = true ∧
     C04_demo.pathsT [] = [[.str "a", .int 0], [.str "a", .int 1], [.str "b"]] := by decide
+
+/-! ### refinement: `accessors()` lists the typed entries from the root to every leaf -/
+
+
+/-- **`accessors()` on an encoding is the tree-level typed listing `accsT`** (all well-formed shapes with one
+entry per child and typed nodes), and stripping the types gives `pathsT` -/
+theorem C04_accessors_refines (s : STree) (hw : s.wf = true) (hk : s.entriesOk = true) (ht : s.typedOk = true)
+    (nil : Bool) (ns : String) :
+    accessors (s.spec nil ns) = .ok (s.accsT []) ∧ (s.accsT []).map pathOf = s.pathsT [] := by
+  refine ⟨accessors_enc s hw hk ht nil ns, ?_⟩
+  exact STree.accsT_path s [] hw ht
+
+/-- **for a treespec made by flattening any well-formed tree `accessors()` succeeds**, returns one accessor per
+leaf — the typed listing of the tree's shape — its entries are those of `paths()`, and following the entries of
+the i-th accessor from the tree reaches the i-th leaf. -/
+theorem C04_accessors_of_flatten (cfg : Cfg) (hp : cfg.pred = Option.none) (t : PyObj) (ht : t.wf = true)
+    (ls : List PyObj) (sp : Spec) (h : flatten cfg t = .ok (ls, sp)) (hns : sp.ns = cfg.ns) :
+    ∃ as, accessors sp = .ok as ∧ as = (shapeOf cfg (!cfg.insertionOrdered) t).accsT [] ∧
+      as.length = ls.length ∧ paths sp = .ok (as.map pathOf) ∧
+      ∀ (i : Nat) (a : List AccEntry) (x : PyObj), as[i]? = some a → ls[i]? = some x →
+        PyObj.follow cfg t (pathOf a) = some x := by
+  obtain ⟨e, hl⟩ := flatten_shapeOf cfg hp t ht ls sp h
+  obtain ⟨w, _⟩ := wg cfg (!cfg.insertionOrdered) t ht
+  have hk := eo cfg (!cfg.insertionOrdered) t
+  have hty := ty cfg (!cfg.insertionOrdered) t
+  obtain ⟨hacc, hpath⟩ := C04_accessors_refines _ w hk hty sp.noneIsLeaf sp.ns
+  obtain ⟨ps, hps, hlen, hreach⟩ := C04_path_reaches_leaf cfg hp t ht ls sp h hns
+  have hps' : ps = ((shapeOf cfg (!cfg.insertionOrdered) t).accsT []).map pathOf := by
+    rw [e, C04_paths_refines _ w hk] at hps
+    rw [hpath]; exact (Except.ok.inj hps).symm
+  refine ⟨_, by rw [e]; exact hacc, rfl, ?_, by rw [hps, hps'], ?_⟩
+  · rw [← hlen, hps']; simp
+  · intro i a x h1 h2
+    exact hreach i (pathOf a) x (by rw [hps']; simp [h1]) h2
+
+/-- every entry of every accessor of such a treespec has a concrete entry class (never the `AutoEntry`
+dispatcher itself) -/
+theorem accEntries_resolved (i : NInfo) (n : Nat) : ∀ e ∈ i.accEntries n, e.ek ≠ .auto := by
+  intro e he
+  unfold NInfo.accEntries at he
+  cases h : i.accTy with
+  | none => simp [h] at he
+  | some p =>
+    obtain ⟨ty, ek⟩ := p
+    simp only [h, List.mem_map] at he
+    obtain ⟨k, _, rfl⟩ := he
+    unfold NInfo.accTy at h
+    split at h
+    · simp only [Option.some.injEq, Prod.mk.injEq] at h
+      rw [← h.2]; exact C04_resolveEntryKind_not_auto _ _
+    · simp at h
+
+mutual
+theorem C04_accessor_entries_resolved : ∀ (s : STree) (pre : List AccEntry),
+    (∀ e ∈ pre, e.ek ≠ .auto) → ∀ a ∈ s.accsT pre, ∀ e ∈ a, e.ek ≠ .auto
+  | .leaf, pre, hpre, a, ha => by
+      simp only [STree.accsT, List.mem_singleton] at ha
+      subst ha; exact hpre
+  | .node i cs, pre, hpre, a, ha => by
+      simp only [STree.accsT] at ha
+      exact C04_accessor_entries_resolvedL cs _ pre (accEntries_resolved i _) hpre a ha
+theorem C04_accessor_entries_resolvedL : ∀ (cs : List STree) (es pre : List AccEntry),
+    (∀ e ∈ es, e.ek ≠ .auto) → (∀ e ∈ pre, e.ek ≠ .auto) → ∀ a ∈ STree.accsL cs es pre, ∀ e ∈ a, e.ek ≠ .auto
+  | [], _, _, _, _, a, ha => by simp [STree.accsL] at ha
+  | _ :: _, [], _, _, _, a, ha => by simp [STree.accsL] at ha
+  | c :: cs, e :: es, pre, hes, hpre, a, ha => by
+      simp only [STree.accsL, List.mem_append] at ha
+      rcases ha with ha | ha
+      · refine C04_accessor_entries_resolved c (pre ++ [e]) ?_ a ha
+        intro x hx
+        simp only [List.mem_append, List.mem_singleton] at hx
+        rcases hx with hx | hx
+        · exact hpre x hx
+        · subst hx; exact hes _ (by simp)
+      · exact C04_accessor_entries_resolvedL cs es pre (fun x hx => hes x (by simp [hx])) hpre a ha
+end
+
+example : C04_demo.typedOk = true ∧
+    (C04_demo.accsT []).map pathOf = [[.str "a", .int 0], [.str "a", .int 1], [.str "b"]] ∧
+    ((C04_demo.accsT []).map fun a => a.map fun e => (e.kind, e.ek)) =
+      [[(.dict, .mapping), (.tuple, .sequence)], [(.dict, .mapping), (.tuple, .sequence)], [(.dict, .mapping)]] := by decide
 
 end Optree
